@@ -697,6 +697,28 @@ func c13Body(r *vlib.Run) int {
 				good = false
 			}
 		}
+		// a session with three commands (a follow or a cat of three files given as a list) that is cut off after a
+		// second: every one of its reads, running or queued, must be gone afterwards
+		if good {
+			mode := []string{"tail", "cat"}[hi%2]
+			if client, _, _, in, err := trySession(srv.Addr(), "tester", []ssh.AuthMethod{ssh.PublicKeys(key.Signer)}, ""); err == nil {
+				for k := 0; k < 3; k++ {
+					f := filepath.Join(dataDir, fmt.Sprintf("%s-9%02d-%d.log", mode, hi%100, k))
+					if mode == "tail" {
+						os.WriteFile(f, []byte("old\n"), 0644)
+						io.WriteString(in, encodeCommand("tail:plain=true "+f+" regex:noop "))
+					} else {
+						os.Link(big, f)
+						io.WriteString(in, encodeCommand("cat:plain=true "+f+" regex:noop "))
+					}
+				}
+				time.Sleep(time.Duration(700+hrng.Intn(900)) * time.Millisecond)
+				client.Close()
+				hist = append(hist, fmt.Sprintf("open+cancel(%s session with three commands)", mode))
+				r.Count("multi_command_sessions_cut_off", 1)
+				good = quiesce()
+			}
+		}
 		// end: cancel everything, all slots must come back (nothing open)
 		for _, s := range sessions {
 			if s.live {
